@@ -182,12 +182,39 @@ class Ctx:
             errs = [l for l in log.splitlines() if 'Error' in l or 'rror:' in l or l.startswith('File ')]
             self.theorems = [{'name': n, 'proved': False} for n in names]
             return self.stage('prove', False, 'make failed:\n' + '\n'.join(errs[-12:]) + '\n' + log[-1500:])
-        # re-run coqc on the Properties file to capture Print Assumptions deterministically
+        # Print Assumptions of every theorem.  The .vo build above has just compiled (or found up to date) the very same Properties
+        # file: reuse THAT compile's output instead of compiling the file a second time (C16: 71 Print Assumptions = ~60 s).
+        #  - compiled in this make run: its output is the part of the make log after the last `COQC <properties_file>` line;
+        #  - up to date: the output cached by the run that compiled it, valid only while the .vo file is the same (mtime + size);
+        #  - anything unexpected (block count != theorem count, no cache): fall back to the separate coqc run as before.
         args = self.coq_args()
-        rc2, o2, e2, _ = sh(['coqc'] + args + [properties_file], cwd=d, timeout=600)
-        if rc2 != 0:
-            self.theorems = [{'name': n, 'proved': False} for n in names]
-            return self.stage('prove', False, 'Properties file failed:\n' + (o2 + e2)[-2000:])
+        vo = os.path.join(d, properties_file[:-2] + '.vo')
+        cache = os.path.join(self.build, 'print_assumptions.cache')
+        vo_key = '%r %r' % (os.path.getmtime(vo), os.path.getsize(vo)) if os.path.exists(vo) else None
+        o2 = None
+        m_ = list(re.finditer(r'^COQC %s\s*$' % re.escape(properties_file), log, flags=re.M))
+        if m_:
+            cand = log[m_[-1].end():]
+            if len(self.parse_assumptions(cand)) == len(names) and vo_key:
+                o2 = cand
+                try: json.dump({'vo': vo_key, 'out': cand}, open(cache, 'w'))
+                except OSError: pass
+        elif vo_key and os.path.exists(cache):
+            try:
+                c_ = json.load(open(cache))
+                if c_.get('vo') == vo_key and len(self.parse_assumptions(c_.get('out', ''))) == len(names):
+                    o2 = c_['out']
+            except (ValueError, OSError):
+                pass
+        if o2 is None:
+            rc2, o2, e2, _ = sh(['coqc'] + args + [properties_file], cwd=d, timeout=600)
+            if rc2 != 0:
+                self.theorems = [{'name': n, 'proved': False} for n in names]
+                return self.stage('prove', False, 'Properties file failed:\n' + (o2 + e2)[-2000:])
+            vo_key = '%r %r' % (os.path.getmtime(vo), os.path.getsize(vo)) if os.path.exists(vo) else None
+            if vo_key:
+                try: json.dump({'vo': vo_key, 'out': o2}, open(cache, 'w'))
+                except OSError: pass
         blocks = self.parse_assumptions(o2)
         ok = True; det = []
         if len(blocks) != len(names):
